@@ -585,7 +585,8 @@ pub fn step_monitors(props: &[&str], pre: &Sim, act: &Act, ap: &Applied, post: &
         ExecuteMsg::ReceiveRewards {} => {
             if has(props, "C11") {
                 let amount = funds.iter().find(|(d, _)| *d == sd).map(|(_, a)| *a).unwrap_or(0);
-                let rate = pre_cfg.protocol_fee_config.dao_treasury_fee.u128();
+                // the fee configuration in force is the one last supplied successfully (reference model)
+                let rate = pre.m.fee_rate;
                 let fee = mul_div(rate, amount, 100_000);
                 if ok {
                     if ps.total_liquid_stake_token.is_zero() {
@@ -621,7 +622,7 @@ pub fn step_monitors(props: &[&str], pre: &Sim, act: &Act, ap: &Applied, post: &
                                     _ => None,
                                 })
                                 .collect();
-                            match &pre_cfg.protocol_fee_config.treasury_address {
+                            match &pre.m.treasury {
                                 Some(t) => {
                                     if tre_sends != vec![(t.to_string(), fee)] {
                                         v.push(viol("C11", "rewards.fee.to_treasury", format!("fee {fee} with treasury {t}: sends {:?}", tre_sends)));
@@ -649,15 +650,15 @@ pub fn step_monitors(props: &[&str], pre: &Sim, act: &Act, ap: &Applied, post: &
             if has(props, "C11") {
                 let is_admin = pre.w.admin().as_deref() == Some(sender.as_str());
                 let a = amount.u128();
-                let allowed = is_admin && a <= ps.total_fees.u128() && pre_cfg.protocol_fee_config.treasury_address.is_some();
+                let allowed = is_admin && a <= ps.total_fees.u128() && pre.m.treasury.is_some();
                 if ok && !allowed {
-                    v.push(viol("C11", "fee_withdraw.accepted_wrongly", format!("FeeWithdraw({a}) by {sender} accepted: admin={is_admin} fees={} treasury={:?}", ps.total_fees, pre_cfg.protocol_fee_config.treasury_address)));
+                    v.push(viol("C11", "fee_withdraw.accepted_wrongly", format!("FeeWithdraw({a}) by {sender} accepted: admin={is_admin} fees={} treasury={:?}", ps.total_fees, pre.m.treasury)));
                 }
                 if !ok && allowed && pre.w.bal(&me, &sd) >= a {
                     v.push(viol("C11", "fee_withdraw.refused_wrongly", format!("FeeWithdraw({a}) by admin refused: {:?}", ap.out.err)));
                 }
                 if ok && allowed {
-                    let t = pre_cfg.protocol_fee_config.treasury_address.as_ref().unwrap().to_string();
+                    let t = pre.m.treasury.clone().unwrap();
                     let sends: Vec<(String, u128)> = ap
                         .out
                         .events
